@@ -8,6 +8,9 @@ use crate::rng::Rng;
 
 pub const SLOTS: usize = 6;
 
+/// Pairwise semantically distinct POSIX TZ strings. Entries 6.. are
+/// near-duplicates of entry 0 that differ in exactly one field, so that an
+/// equality that ignores a field is exposed.
 pub const POSIX: &[&str] = &[
     "EST5EDT,M3.2.0,M11.1.0",
     "CET-1CEST,M3.5.0,M10.5.0/3",
@@ -15,6 +18,22 @@ pub const POSIX: &[&str] = &[
     "NZST-12NZDT,M9.5.0,M4.1.0/3",
     "IST-1GMT0,M10.5.0,M3.5.0/1",
     "XYZ3",
+    "EST5EDT,M3.2.0,M11.1.0/3",
+    "EST5EDT,M3.2.0/3,M11.1.0",
+    "EST5EDT,M3.2.0,M11.2.0",
+    "EST5EDT,M3.2.1,M11.1.0",
+    "EST5EDT,M4.2.0,M11.1.0",
+    "EST5EDT3,M3.2.0,M11.1.0",
+    "EST5:00:01EDT,M3.2.0,M11.1.0",
+    "EST-5EDT,M3.2.0,M11.1.0",
+    "ESX5EDT,M3.2.0,M11.1.0",
+    "EST5EDX,M3.2.0,M11.1.0",
+    "EST5EDT,J60,M11.1.0",
+    "EST5EDT,60,M11.1.0",
+    "EST5EDT,59,M11.1.0",
+    "EST5EDT,M3.2.0,M11.1.0/-1",
+    "XYZ-3",
+    "XYZ3:00:01",
 ];
 
 pub const N_STATIC: u8 = 3;
@@ -29,8 +48,16 @@ pub enum Spec {
     TzifReal(u8),
     /// Synthetic TZif (see zonegen), from bytes.
     TzifSynth { k: u32, tr: bool },
+    /// Synthetic TZif data `k` under one of a few shared names: the same
+    /// name with different data, and the same data under different names,
+    /// are different zones.
+    TzifNamed { name: u8, k: u32 },
     /// `jiff::tz::get!` static (no heap).
     Static(u8),
+    /// Heap TZif built from the *same name and bytes* as `Static(i)` (the
+    /// bundled tz database): the static and the heap representation of one
+    /// zone meet.
+    TzifBundled(u8),
 }
 
 impl Spec {
@@ -42,14 +69,24 @@ impl Spec {
         }
     }
     pub fn heap(&self) -> bool {
-        matches!(self, Spec::Posix(_) | Spec::TzifReal(_) | Spec::TzifSynth { .. })
+        matches!(
+            self,
+            Spec::Posix(_)
+                | Spec::TzifReal(_)
+                | Spec::TzifSynth { .. }
+                | Spec::TzifNamed { .. }
+                | Spec::TzifBundled(_)
+        )
     }
     /// 0: inline kinds (UTC, unknown, fixed), 1: POSIX, 2: TZif, 3: static.
     pub fn class(&self) -> u8 {
         match self {
             Spec::Utc | Spec::Unknown | Spec::Fixed(_) => 0,
             Spec::Posix(_) => 1,
-            Spec::TzifReal(_) | Spec::TzifSynth { .. } => 2,
+            Spec::TzifReal(_)
+            | Spec::TzifSynth { .. }
+            | Spec::TzifNamed { .. }
+            | Spec::TzifBundled(_) => 2,
             Spec::Static(_) => 3,
         }
     }
@@ -61,6 +98,8 @@ impl Spec {
             Spec::Posix(_) => "posix",
             Spec::TzifReal(_) => "tzif_real",
             Spec::TzifSynth { .. } => "tzif_synth",
+            Spec::TzifNamed { .. } => "tzif_named",
+            Spec::TzifBundled(_) => "tzif_bundled",
             Spec::Static(_) => "static",
         }
     }
@@ -96,6 +135,10 @@ pub enum Op {
     ZonedMutate { slot: u8, which: u8, arg: i16 },
     /// `Zoned` comparison, ordering and hashing of two values.
     ZonedCompare { a: u8, b: u8 },
+    /// One of `N_ZONED_PAIR` APIs over two `Zoned` values (`until` / `since`
+    /// with various largest units, `&a - &b`, `duration_until`): they build
+    /// temporaries that embed the handle.
+    ZonedPair { a: u8, b: u8, which: u8 },
     /// One of `N_TZ_MAKE` APIs that build a `Zoned`/`AmbiguousZoned` from a
     /// `TimeZone` handle (`Zoned::new`, `tz.to_zoned`, `dt.to_zoned`, ...).
     TzMake { src: u8, dst: u8, which: u8, t: u8 },
@@ -126,6 +169,7 @@ impl Op {
             Op::ZonedMake { .. } => "zoned_make",
             Op::ZonedMutate { .. } => "zoned_mutate",
             Op::ZonedCompare { .. } => "zoned_compare",
+            Op::ZonedPair { .. } => "zoned_pair",
             Op::TzMake { .. } => "tz_make",
             Op::AmbOp { .. } => "amb_op",
             Op::Send { .. } => "send",
@@ -141,13 +185,14 @@ pub struct Case {
     pub threads: Vec<Vec<Op>>,
 }
 
-pub const N_INSTANTS: u8 = 8;
+pub const N_INSTANTS: u8 = 12;
 pub const N_DATETIMES: u8 = 5;
 pub const N_QUERIES: u8 = 10;
 pub const N_ZONED_MAKE: u8 = 24;
 pub const N_ZONED_MUTATE: u8 = 9;
 pub const N_TZ_MAKE: u8 = 6;
 pub const N_AMB_OPS: u8 = 6;
+pub const N_ZONED_PAIR: u8 = 16;
 
 fn spec(rng: &mut Rng, pool: &[Spec]) -> Spec {
     if !pool.is_empty() && rng.chance(3, 5) {
@@ -157,7 +202,7 @@ fn spec(rng: &mut Rng, pool: &[Spec]) -> Spec {
 }
 
 pub fn fresh_spec(rng: &mut Rng) -> Spec {
-    match rng.weighted(&[6, 4, 18, 18, 22, 18, 14]) {
+    match rng.weighted(&[6, 4, 18, 20, 18, 12, 12, 10, 8]) {
         0 => Spec::Utc,
         1 => Spec::Unknown,
         2 => {
@@ -170,7 +215,9 @@ pub fn fresh_spec(rng: &mut Rng) -> Spec {
         3 => Spec::Posix(rng.below(POSIX.len() as u64) as u8),
         4 => Spec::TzifReal(rng.below(crate::zonegen::REAL_TZIF.len() as u64) as u8),
         5 => Spec::TzifSynth { k: 1 + rng.below(50) as u32, tr: rng.chance(1, 2) },
-        _ => Spec::Static(rng.below(N_STATIC as u64) as u8),
+        6 => Spec::Static(rng.below(N_STATIC as u64) as u8),
+        7 => Spec::TzifNamed { name: rng.below(2) as u8, k: 1 + rng.below(3) as u32 },
+        _ => Spec::TzifBundled(rng.below(N_STATIC as u64) as u8),
     }
 }
 
@@ -209,7 +256,7 @@ pub fn generate(rng: &mut Rng, thorough: bool) -> Case {
             let op = match rng.weighted(&[
                 w_new, 16, 12, 6, 8, 14, w_zoned, w_zoned / 2, w_zoned / 2, w_zoned / 2,
                 w_zoned / 2, w_zoned / 2, w_send, w_send, w_shared, w_crash,
-                w_zoned, w_zoned, w_zoned / 3, w_zoned / 2, w_zoned / 2,
+                w_zoned, w_zoned, w_zoned / 3, w_zoned / 2, w_zoned / 2, w_zoned,
             ]) {
                 0 => {
                     let dst = slot(rng);
@@ -313,10 +360,15 @@ pub fn generate(rng: &mut Rng, thorough: bool) -> Case {
                         t: rng.below(N_INSTANTS as u64) as u8,
                     }
                 }
-                _ => Op::AmbOp {
+                20 => Op::AmbOp {
                     src: full(rng, &occ),
                     dst: slot(rng),
                     which: rng.below(N_AMB_OPS as u64) as u8,
+                },
+                _ => Op::ZonedPair {
+                    a: full(rng, &occ),
+                    b: full(rng, &occ),
+                    which: rng.below(N_ZONED_PAIR as u64) as u8,
                 },
             };
             let crash = op == Op::Crash;
